@@ -46,11 +46,11 @@ PROPS = {
         "level": "other",
         "lean": ["PasfmtModel.Props.C03"],
         "streams": [
-            {"stream": "fmt", "families": "seeds_sample,grammar,layout,regions,mlsfam,marked,boundary,boundary,mlscancel,mlsshift,mlsshift,condinline", "quick": 9000, "thorough": 50000,
+            {"stream": "fmt", "families": "seeds_sample,grammar,layout,regions,mlsfam,marked,boundary,boundary,mlscancel,mlsshift,mlsshift,mlstwo,condinline", "quick": 9000, "thorough": 50000,
              "binding": ["prec", "wp", "wcn", "sx", "out", "*"], "args": {"oracles": "c03"}},
             # idempotence is a property of the whole pipeline, the search included: the closed model against the real formatter
-            {"stream": "full", "name": "whole", "families": "seeds_sample,grammar,layout,marked,boundary,c11mini,mlsfam,mlsshift,mlscancel,condinline,regions", "quick": 6000, "thorough": 60000, "binding": ["out", "*"]},
-            {"stream": "wsearch", "name": "search", "families": "seeds_sample,grammar,layout,marked,boundary,c11mini,mlsfam,mlsshift,mlscancel,condinline,regions", "quick": 4000, "thorough": 40000, "binding": ["ws", "wp", "wcn", "*"]},
+            {"stream": "full", "name": "whole", "families": "seeds_sample,grammar,layout,marked,boundary,c11mini,mlsfam,mlsshift,mlstwo,mlscancel,condinline,regions", "quick": 6000, "thorough": 60000, "binding": ["out", "*"]},
+            {"stream": "wsearch", "name": "search", "families": "seeds_sample,grammar,layout,marked,boundary,c11mini,mlsfam,mlsshift,mlstwo,mlscancel,condinline,regions", "quick": 4000, "thorough": 40000, "binding": ["ws", "wp", "wcn", "*"]},
         ],
         "oracle_prefixes": ["c03", "glue"],
         "abnormal_binding": False,
@@ -122,13 +122,13 @@ PROPS = {
         "level": "other",
         "lean": ["PasfmtModel.Props.C04"],
         "streams": [
-            {"stream": "fmt", "families": "soup,bytes,mutate,directives,dirsoup,seeds_sample,layout,deepnest,lexfam", "quick": 10500, "thorough": 80000,
+            {"stream": "fmt", "families": "soup,bytes,mutate,directives,dirsoup,seeds_sample,layout,deepnest,lexfam,nosol", "quick": 10500, "thorough": 80000,
              "binding": ["*"], "args": {"oracles": "c15,c04", "timeout_ms": 20000}},
             {"stream": "parse", "families": "soup,bytes,mutate,directives,dirsoup,layout", "quick": 7500, "thorough": 40000, "name": "counters"},
             # the total, fuel-bounded Lean model of the whole parser answers (never `model-none`: no panic site reached, fuel 200*(n+10) not exhausted) and agrees
             {"stream": "pfull", "name": "parser", "families": "soup,bytes,mutate,dirsoup,deepnest", "quick": 10000, "thorough": 40000, "binding": ["pk", "pl", "*"]},
             # the closed, total model of the whole formatter answers (never `model-none`) and agrees, on ill-formed input too
-            {"stream": "full", "name": "whole", "families": "soup,bytes,mutate,dirsoup,lexfam", "quick": 6000, "thorough": 40000, "binding": ["out", "*"]},
+            {"stream": "full", "name": "whole", "families": "soup,bytes,mutate,dirsoup,lexfam,nosol", "quick": 6000, "thorough": 40000, "binding": ["out", "*"]},
             {"stream": "fmt", "name": "enum", "families": "soup_enum", "quick": 7500, "thorough": 1010100, "multi_seed": False,
              "binding": ["*"], "args": {"timeout_ms": 20000}},
         ],
@@ -234,7 +234,7 @@ PROPS = {
         "level": "proof",
         "lean": ["PasfmtModel.Props.C12"],
         "streams": [
-            {"stream": "fmt", "families": "mlsfam,mlsfam,mlsshift,mlsshift,seeds_sample,layout,bytes", "quick": 8750, "thorough": 40000,
+            {"stream": "fmt", "families": "mlsfam,mlsfam,mlsshift,mlsshift,mlstwo,seeds_sample,layout,bytes", "quick": 8750, "thorough": 40000,
              "binding": ["wc", "wp", "wcn", "sx", "prec", "out", "*"], "args": {"oracles": "c12"}},
         ],
         "oracle_prefixes": ["c12", "glue"],
